@@ -51,7 +51,7 @@ def check_once(ctx, out, prefix, name, per_task_call_rx, per_task_what, per_task
         out.viol(rule, "%s|spawn-nesting" % rule, ctx.where(co, st["span"]), "the spawn is nested in %d loops; expected the file loop and the block loop only (one task per block)" % len(inner))
     # guarded by the attribute being present (and non-empty)
     gs = util.guard_texts(ctx, co, sbi)
-    has_attr = any(re.search(r"^(discr\()?HashMap::(get|contains_key)\(.*'%s'\)" % re.escape(name), g[2]) and "0" not in g[1] for g in gs)
+    has_attr = any(re.search(r"HashMap::(get|contains_key)\(.*'%s'\)" % re.escape(name), g[2]) and "0" not in g[1] for g in gs)
     nonempty = any(re.search(r"is_empty\(str::trim\(", g[2]) and g[1] == ["0"] for g in gs)
     if has_attr and nonempty:
         n += 1
